@@ -88,8 +88,14 @@ func runSlow(sc SlowScenario) world.Verdict {
 	var dIDs, pIDs []coreda.ID
 	var dErr, pErr error
 	wg.Add(2)
-	go func() { defer wg.Done(); dIDs, dErr = direct.SubmitWithOptions(context.Background(), blobs, 1, nil, nil) }()
-	go func() { defer wg.Done(); pIDs, pErr = px.client.DA.SubmitWithOptions(context.Background(), blobs, 1, nil, nil) }()
+	go func() {
+		defer wg.Done()
+		dIDs, dErr = direct.SubmitWithOptions(context.Background(), blobs, 1, nil, nil)
+	}()
+	go func() {
+		defer wg.Done()
+		pIDs, pErr = px.client.DA.SubmitWithOptions(context.Background(), blobs, 1, nil, nil)
+	}()
 	wg.Wait()
 	if classifyErr(dErr) != classifyErr(pErr) || len(dIDs) != len(pIDs) {
 		return world.Fail("C16/slow-answer-differs", "a submission of %d blobs that the DA layer answers after %d s (%s): called directly %d ids, %s; through the proxy %d ids, %s (%v)", sc.NBlobs, sc.DelayS,
